@@ -57,7 +57,7 @@ fn decode_case(out: &mut Out, input: &[u8], what: &str, expect: &dyn Fn(&Obs) ->
     }
     let o = decode_obs(input);
     let human = format!("{} input=\"{}\" -> {}", what, show(input), show_obs(&o));
-    let g = format!("CDecode {} {} (-1)%Z", g_bytes(input), g_obs(&o));
+    let g = format!("CDecode {} {} (-1)%Z", gb(input), g_obs(&o));
     let i = out.case(g, human.clone(), input.len() > 3);
     if let Some(bad) = expect(&o) {
         out.fail(i, &human, &bad, None);
@@ -86,9 +86,9 @@ fn stream_case(out: &mut Out, frames: &[Fr], chunks: &[Vec<u8>], what: &str) {
     );
     let g = format!(
         "CStream {} {} {}",
-        g_list(chunks.iter().map(|c| g_bytes(c))),
+        g_list(chunks.iter().map(|c| gb(c))),
         g_list(evs.iter().map(g_event)),
-        g_bytes(&fin)
+        gb(&fin)
     );
     let i = out.case(g, human.clone(), chunks.len() > 1);
     // the property's own predicate: exactly these frames, in order, once each; nothing left
